@@ -270,7 +270,10 @@ def run(ctx: Ctx) -> None:
     for inc, mode, order, comments, scope, output in combos:
         cases.append({"kind": "parse", "file": "src", "opts": {"includes": inc, "mode": mode, "order": order, "comments": comments, "scope": scope, "output": output}})
     for _ in range(ctx.n(60, 800)):
-        cases.append({"kind": "tostring", "d": enc(gen.tree_dict(rng, 3, 4, leaf=lambda r: gen.scalar(r, strings=False), key_fn=lambda r: gen.word(r)))})
+        d = gen.tree_dict(rng, 3, 4, leaf=lambda r: gen.scalar(r, strings=False), key_fn=lambda r: ("_" if r.random() < 0.25 else "") + gen.word(r))
+        if rng.random() < 0.5:
+            d["solver"] = {"_attributes": {"a": 1}, "tol": 1, "inner": {"_cache": [1, 2], "lst": [{"_tmp": 1, "keep": 2}]}}
+        cases.append({"kind": "tostring", "d": enc(d)})
     for _ in range(ctx.n(300, 5000)):
         nm = rng.choice(["foo", "foo.cpp", "parsed.foo", "parsed", "a.b.c", ".hidden", "x.", "parsedXfoo", "my file.dict", gen.word(rng) + rng.choice(["", ".x", ".json"])])
         cases.append({"kind": "name", "name": nm, "prefix": rng.choice(["parsed", "parsed.", None, "pre", "a.b"]),
